@@ -337,6 +337,9 @@ class C18(Check):
                S.SCHED([(1, 'a'), (0.5, 'b')], True, [('o1', 'default')], K=K, second=[(0.5, 'x'), (1, 'y')]),
                S.SCHED_BLOCK(K - 1)]
         jobs += _line_jobs(sel, ['schedule'], tier)
+        # a scheduler created while the line is running / between two runs follows its timetable from its creation on
+        late = S.LATE(1, creates=[[6]], horizon=4, name='sched')
+        jobs += _line_jobs([late, S.with_splits(late)], ['schedule', 'lifecycle'], tier)
         return jobs
 
 
@@ -364,7 +367,12 @@ class C19(Check):
                                     callbacks=2 if cap != 3 else 1, cms_twice=cap != 1,
                                     second=1 if interval != 1.5 else None))
         specs.append(S.SENS(0, horizon=1.0, interval=0.1, cap=3, n=0))
-        return _line_jobs(specs, ['sensors'], tier)
+        specs.append(S.SENS(K, interval=1, cap=2, n=1, placeholder='processor', two_cms=True))
+        specs.append(S.SENS(K, interval=0.5, cap=None, n=0, ocap=1, two_cms=True, cms_twice=False))
+        # sensors and a CMS created while the line is running / between two runs: same schedule from their creation on
+        late = S.LATE(1, creates=[[7], [8], [9]], horizon=4, name='sens')
+        specs += [late, S.with_splits(late)]
+        return _line_jobs(specs, ['sensors', 'lifecycle'], tier)
 
 
 @check
